@@ -119,6 +119,23 @@ fn one_case(run: &Run, case: u64) {
     let sc = Scratch::new("c01");
     let src = sc.join("src");
     tree::sync_to_disk(None, &spec, &src).expect("materialise");
+    if case % 6 == 4 {
+        // hard links: a second and third name for one inode, in the same and in another directory
+        let files: Vec<String> = spec.iter().filter(|(_, n)| n.kind == Kind::File).map(|(p, _)| p.clone()).collect();
+        if let Some(f) = files.first() {
+            let from = src.join(&f[1..]);
+            let made = std::fs::hard_link(&from, src.join("zz-hardlink")).is_ok() as u64
+                + std::fs::hard_link(&from, from.with_file_name("zz-other-name")).is_ok() as u64;
+            run.count("sources_with_hard_links", (made > 0) as u64);
+            // put the directory times back where the tree description has them
+            for d in [String::from("/"), tree::parent_of(f).to_string()] {
+                if let Some(n) = spec.get(&d) {
+                    let p = if d == "/" { src.clone() } else { src.join(&d[1..]) };
+                    let _ = filetime::set_file_mtime(&p, filetime::FileTime::from_unix_time(n.mtime_s, n.mtime_ns));
+                }
+            }
+        }
+    }
     let snap = tree::snapshot(&src).expect("snapshot");
     if case % 6 == 2 {
         // a fifo and a socket: not backed up, so the restored tree equals the source without them
@@ -242,7 +259,7 @@ pub fn run(tier: Tier, replay: Option<Value>) -> i32 {
         super::alongside(&run, "the many-hunks case", || many_hunks(&run), || run.par_cases(n, super::threads(), |case| one_case(&run, case)));
     }
     run.finish(
-        "one tree of 10 040 files with one entry per index hunk (two index subdirectories), then seeded generated trees (depth<=4; names with leading dots, bytes below/above '/', multi-byte; file sizes at 0/1/cap±1/block±1/2·block/3·block+7; duplicate and prefix contents; modes cycling through 0..0o7777; mtimes from {-2^31..2^33}s x {0,1,5e8,999999999,random}ns on files, dirs and symlinks; dangling/absolute/.. symlinks; named owners; every 40th case additionally a wide and deep tree: 150-500 files and 40 subdirectories in one directory, names of 250 bytes, a chain of 30 nested directories) x option sets drawn from all 216 combinations (case 0: default options with incompressible files of 3 and 5 MiB, 21 MiB in the thorough tier); every fifth case runs on a 4-worker multi-thread runtime instead of the current-thread one; backup must be Ok with no error reported, restore into an empty directory must be Ok with no error and the lstat/readlink/read snapshot of the result must equal that of the source (bytes, kind, target, mtime ns incl. directories and root, mode&0o7777, uid/gid as root). Non-trivial = has a multi-block file, a combined block of >=2 files, a special mode bit, a pre-epoch or sub-second mtime, or a non-ASCII name; distinct by (tree signature, options).",
+        "one tree of 10 040 files with one entry per index hunk (two index subdirectories), then seeded generated trees (depth<=4; names with leading dots, bytes below/above '/', multi-byte; file sizes at 0/1/cap±1/block±1/2·block/3·block+7; duplicate and prefix contents; modes cycling through 0..0o7777; mtimes from {-2^31..2^33}s x {0,1,5e8,999999999,random}ns on files, dirs and symlinks; dangling/absolute/.. symlinks; hard links (every sixth case), a fifo and a socket (every sixth case); named owners; every 40th case additionally a wide and deep tree: 150-500 files and 40 subdirectories in one directory, names of 250 bytes, a chain of 30 nested directories) x option sets drawn from all 216 combinations (case 0: default options with incompressible files of 3 and 5 MiB, 21 MiB in the thorough tier); every fifth case runs on a 4-worker multi-thread runtime instead of the current-thread one; backup must be Ok with no error reported, restore into an empty directory must be Ok with no error and the lstat/readlink/read snapshot of the result must equal that of the source (bytes, kind, target, mtime ns incl. directories and root, mode&0o7777, uid/gid as root). Non-trivial = has a multi-block file, a combined block of >=2 files, a special mode bit, a pre-epoch or sub-second mtime, or a non-ASCII name; distinct by (tree signature, options).",
         &[
             "expected values are the snapshot of what the file system actually holds (tmpfs /dev/shm)",
             "release profile, debug assertions off",
